@@ -157,7 +157,22 @@ def run_case(kind, p):
         if kind == "builtin":
             pat = impl.pattern_from(p["pattern"])
             shape = tuple(p["shape"])
+            # the same object may have been asked for other shapes before ("re-queried for different shapes in any order")
+            for s_ in p.get("prior_shapes", []):
+                pat.get_mask(tuple(s_))
+                pat.get_template(tuple(s_))
             m = pat.get_mask(shape)
+            if p.get("prior_shapes"):
+                fresh = impl.pattern_from(p["pattern"])
+                fm = fresh.get_mask(shape)
+                if fm.shape != m.shape or not np.array_equal(fm, m, equal_nan=True):
+                    msgs.append(f"{p['pattern']['kind']}: get_mask{shape} after queries for {p['prior_shapes']} differs from a fresh "
+                                f"pattern's mask")
+                ft = fresh.get_template(shape)
+                st_ = pat.get_template(shape)
+                if ft.shape != st_.shape or not np.array_equal(ft, st_, equal_nan=True):
+                    msgs.append(f"{p['pattern']['kind']}: get_template{shape} after queries for {p['prior_shapes']} differs from a "
+                                f"fresh pattern's template")
             name = p["pattern"]["kind"]
             outer = p["pattern"].get("radius_outer", p["pattern"]["radius"])
             if m.shape != shape:
@@ -261,6 +276,12 @@ def search(ctx, boost=1, focus=()):
             shape = [2 * int(np.ceil(pat["search"])) + 1] * 2
         p = {"pattern": pat, "shape": shape,
              "other_shapes": [[int(rng.integers(2, 60)), int(rng.integers(2, 60))] for _ in range(2)]}
+        if k % 3 == 1:    # an earlier query whose rfft2 spectrum has the same shape (width 2n <-> 2n+1), or same width
+            tw = shape[1] + 1 if shape[1] % 2 == 0 else shape[1] - 1
+            p["prior_shapes"] = [[shape[0], max(tw, 1)]] if k % 2 else [[shape[0], max(tw, 1)], [shape[0] + 1, shape[1]]]
+        elif k % 3 == 2:  # an earlier query for a larger (even / odd) shape that contains this one
+            p["prior_shapes"] = [[shape[0] + 2 * int(rng.integers(1, 6)) + int(rng.integers(0, 2)),
+                                  shape[1] + 2 * int(rng.integers(1, 6)) + int(rng.integers(0, 2))]]
         msgs = run_case("builtin", p)
         ctx.oracle_case("builtin", p, msgs, key=classify("builtin", p, msgs) if msgs else None,
                         nontrivial=(shape[0] % 2 == 1 or shape[0] != shape[1] or pat["radius"] != int(pat["radius"])))
